@@ -49,7 +49,7 @@ class Ctx:
 
     # -------------------------------------------------------------------------------------------
     def job(self, name, gens, invariants, ops=None, cfg=None, cli=False, fmt_hooks=False, extra_files=None,
-            nontrivial=None, trace_module="Trace", validate_timeout=1500, sample_filter=None, conform=False):
+            nontrivial=None, trace_module="Trace", validate_timeout=1500, sample_filter=None, conform=False, shards=None):
         """gens: list of dict(base=<generator module>, consts={..}, emit=<invariant name>, [simulate=(num, depth)],
                               [constraint=<name>])  or dict(file=<ndjson path of ready-made behaviours>)
                  or dict(rust=[args for `chk gen`])"""
@@ -135,7 +135,7 @@ class Ctx:
         retried = False
         while True:
             res = tlc_validate(d, trace, invariants + (["Conf_All"] if conform else []), skip=skip, name=trace_module,
-                               timeout=validate_timeout if self.quick else 4 * 3600)
+                               timeout=validate_timeout if self.quick else 4 * 3600, shards=shards)
             for layer, whos in res.get("drift", {}).items():
                 dr = self.cov.setdefault("drift", {})
                 dr[layer] = dr.get(layer, 0) + len(whos)
